@@ -319,3 +319,18 @@ def dump_threads():
         out.append('thread %s:\n%s' % (ident, ''.join(
             traceback.format_stack(frame)[-6:])))
     return '\n'.join(out)[-3000:]
+
+
+def thread_cpu_seconds(t):
+    """CPU time (user+system) consumed so far by a live thread, from
+    /proc/self/task/<tid>/stat; None if unavailable."""
+    import os
+    tid = getattr(t, 'native_id', None)
+    if tid is None:
+        return None
+    try:
+        with open('/proc/self/task/%d/stat' % tid) as f:
+            fields = f.read().rsplit(')', 1)[1].split()
+        return (int(fields[11]) + int(fields[12])) / os.sysconf('SC_CLK_TCK')
+    except (OSError, IndexError, ValueError):
+        return None
